@@ -62,7 +62,7 @@ Definition children_minmax (is_fits : bool) (cs : list (option ftile)) : option 
    None = raised; Some None = no parent file afterwards (early return with nothing
    there before, or completely masked -> unlinked); Some (Some t) = the file written *)
 Definition range_callback (k : Z) (cs : list (option ftile)) : option (option ftile) :=
-  match merge_tiles Fits k (map (option_map ft_img) cs) with
+  match merge_tiles_fixed Fits k (map (option_map ft_img) cs) with
   | None => None
   | Some None => Some None
   | Some (Some m) =>
